@@ -57,6 +57,9 @@ CHECKS = {
  'C10': dict(cat=MC, technique='TLA+ metamorphic transition system over assessment configurations (spec/assessment/Assessment.tla): actions carry the relation (unchanged / not larger); TLC enumerates the walks; the real pipeline is executed at every step of core and sampled walks and each recorded step is decided by the TLC trace specification Trace_Assessment.tla (micro-log units, tolerance as a spec constant)',
    text='C10 relates pairs of runs of an expensive numeric pipeline; the specification makes the transformations (add/drop/reorder points, per-point gradient, six kinds of non-reversal refinements, scale, roughness, failure probability) actions with their relation, TLC generates compositions no single-step test reaches, and the accept/reject decision for every recorded step is taken by TLC. Weaker than the exhaustive checks: walks are sampled (all core walks + a seeded stratified sample).',
    note='sampled walks; absolute lifetimes are not judged; open findings C10-PRAJ-batch and C10-PRAM-class-edge', ref='5 C10'),
+ 'C18': dict(cat=MC, technique='TLA+ model of the finite/infinite zone logic (spec/woehleranalysis/Zones.tla) checked exhaustively by TLC and replayed into df.fatigue_data; TLA+ metamorphic transition system (AnalysisEquiv.tla) for the estimators whose recorded walks are decided by the TLC trace specification Trace_Analysis.tla',
+   text='The zone logic is discrete: TLC proves partition / split at the transition / permutation invariance on every test series of the bounded instance and each series is an implementation test (three row-label layouts). The estimators are numeric optimisers: scaling by powers of two, permutation and interleaved analyses of other data are actions with their relation; the recorded estimates along walks are accepted or rejected by TLC (closed-form estimators 1.3e-6, Nelder-Mead based 1e-4), including exact recovery on a Basquin line and the likelihood ordering.',
+   note='partial: estimators only through validated metamorphic walks on a three-data-set catalogue; open finding C18-exact-nan', ref='5 C18'),
 }
 PENDING = 'check not built yet in this round (planned, see DESIGN.md section 5)'
 NA = {
